@@ -42,7 +42,7 @@ FreshUst(b) == [tdbw |-> FALSE,     \* data->tdb_written: undo_setup_tdb has run
                 kib |-> FALSE,      \* data->keys_in_block > 0
                 udirty |-> FALSE,   \* the undo file channel may hold unwritten blocks
                 obs |-> b]          \* channel->block_size of the wrapper
-NoOres == [logical |-> TRUE, coherent |-> TRUE, durable |-> TRUE, closed |-> TRUE]
+NoOres == [logical |-> TRUE, coherent |-> TRUE, durable |-> TRUE, closed |-> TRUE, asspec |-> TRUE]
 
 WriteOps == {"write", "wbyte", "zero", "discard"}
 OpClass(op) == IF op \in WriteOps THEN "write" ELSE IF op \in {"read", "flush", "close"} THEN op ELSE "other"
@@ -146,6 +146,13 @@ UNext(c0, u0, kind, r) ==
      [] c0.pc = "cl.ufile"   -> R("close", Fin(c, IF c.err # 0 \/ Eff("cl.ufile", r) # 0 THEN 1 ELSE c.rret))
      [] OTHER -> [ok |-> FALSE, c |-> c0, u |-> u0]
 UCall(kind, r) == LET n == UNext(oc, ust, kind, r) IN n.ok /\ oc' = n.c /\ ust' = n.u /\ UNCHANGED <<vars, ores, ounrep>>
+\* a call on U that the transcription does not name (a wrapper may flush or read its undo file more often): it changes nothing
+\* here except that its failure, too, has to reach the caller.  Only the trace specification uses it.
+UExtra(kind, r) ==
+   /\ oc.pc \notin {"idle"} /\ kind \in {"flush", "read"} /\ ~UNext(oc, ust, kind, r).ok
+   /\ oc' = [oc EXCEPT !.uerr = @ \/ (r # 0 /\ kind = "flush")]
+   /\ ust' = [ust EXCEPT !.udirty = @ /\ ~(kind = "flush" /\ r = 0)]
+   /\ UNCHANGED <<vars, ores, ounrep>>
 \* the catalogue of fault positions of the conformance part: outer entry point x backing store hit first
 OuterOps == {"read", "write", "wbyte", "zero", "discard", "flush", "close", "blksize", "cacheoff", "cacheon", "readahead"}
 Stores == {"dev", "undo"}
@@ -155,17 +162,19 @@ RSites == {"rd.real", "save.rd", "ix.rd", "ap.write", "ap.wbyte", "ap.zero", "ap
            "ix.sb1", "ix.sb2", "opt.real", "ra.real"}
 
 (* ------------------------------------------- the outer call returns ---------------------------------------- *)
-OFinish ==
+\* r: the value the caller really got (the model checker: oc.ret, what the transcription computes)
+OFinish(r) ==
    /\ oc.pc = "ret"
-   /\ LET rep == oc.ret # 0 \/ oc.hbn > 0
-          o == [op |-> OpClass(oc.op), rng |-> oc.rng, ret |-> oc.ret, F |-> oc.F, rep |-> rep,
+   /\ LET rep == r # 0 \/ oc.hbn > 0
+          o == [op |-> OpClass(oc.op), rng |-> oc.rng, ret |-> r, F |-> oc.F, rep |-> rep,
                 data |-> [g \in oc.rng |-> IF Len(oc.data) = Cardinality(oc.rng) THEN oc.data[g - First(oc.rng) + 1]
                                              ELSE IF oc.op \in {"zero", "discard"} THEN 0 ELSE UNK]]
-          u1 == IO!UnrepAfter(o, ounrep) \/ (oc.uerr /\ oc.ret = 0)
+          u1 == IO!UnrepAfter(o, ounrep) \/ (oc.uerr /\ r = 0)
       IN /\ ores' = [logical |-> IO!LogicalOK(o, oc.lg0, logical),
                      coherent |-> IO!CoherentOK(o, oc.lg0) /\ (oc.op = "read" => oc.rok),
                      durable |-> IO!DurableOK(o, logical, dev),
-                     closed |-> ((oc.op = "close" /\ oc.ret = 0) => ~u1)]
+                     closed |-> ((oc.op = "close" /\ r = 0) => ~u1),
+                     asspec |-> (r = oc.ret)]
          /\ ounrep' = u1
    /\ oc' = IdleOc
    /\ ust' = IF oc.op = "close" THEN FreshUst(InitBS) ELSE ust
@@ -183,4 +192,5 @@ OuterDurable == ores.durable                        \* after a successful flush 
 OuterLogical == ores.logical                        \* nothing but the call's own write changed the content (or the loss was reported)
 OuterErrorReported == ~ounrep                       \* every failed device (or undo file) write was reported by the outer call that met it
 OuterCloseClean == ores.closed
+OuterRetAsSpecified == ores.asspec                  \* (refinement) the wrapper returned what the transcription of its entry point computes
 =============================================================================
